@@ -1,5 +1,7 @@
 package event
 
+import "sync"
+
 type EventFn[T any] func(data T)
 
 type Unsubscribe func()
@@ -10,6 +12,7 @@ type subscriber[T any] struct {
 }
 
 type Event[T any] struct {
+	mu          sync.RWMutex // protects subscribers and nextID
 	subscribers []subscriber[T]
 	nextID      int
 }
@@ -20,10 +23,16 @@ func New[T any]() *Event[T] {
 
 // Adds a subscriber to the event.
 func (e *Event[T]) Subscribe(fn EventFn[T]) Unsubscribe {
+	e.mu.Lock()
+	defer e.mu.Unlock()
+
 	id := e.nextID
 	e.nextID++
 	e.subscribers = append(e.subscribers, subscriber[T]{id: id, fn: fn})
 	return func() {
+		e.mu.Lock()
+		defer e.mu.Unlock()
+
 		// Remove by identity: indices shift when earlier subscribers unsubscribe
 		for i, s := range e.subscribers {
 			if s.id == id {
@@ -38,7 +47,11 @@ func (e *Event[T]) Subscribe(fn EventFn[T]) Unsubscribe {
 // NOTE: The subscribers are notified in separate goroutines,
 // so be aware of potential race conditions.
 func (e *Event[T]) Fire(data T) {
-	for _, subscriber := range e.subscribers {
+	e.mu.RLock()
+	subscribers := append([]subscriber[T](nil), e.subscribers...)
+	e.mu.RUnlock()
+
+	for _, subscriber := range subscribers {
 		go subscriber.fn(data)
 	}
 }
